@@ -1260,9 +1260,99 @@ def respell(t, rng, force=True):
     return out
 
 
+RESPELL_TY_PLACES = ["func-io", "func-io-row", "func-in-in", "sum-variants", "row-elems", "tuple-elems",
+                     "opaque-args", "seq-elems", "nested-func-io"]
+RESPELL_NODE_PLACES = ["sig-io", "sig-args", "args", "siblings", "siblings-whole", "nested-vs-outer"]
+RESPELL_WRAPS = ["bare", "sum", "tuple", "func-in", "func-out", "opaque-arg", "seq-arg"]
+
+
+def respell_wrap(x, how):
+    """x one container deeper (the unit sum is then respelled at depth)"""
+    if how == "bare":
+        return x
+    if how == "sum":
+        return ["sum", [[["qubit"]], [x, ["usize"]]]]
+    if how == "tuple":
+        return ["tuple", [x]]
+    if how == "func-in":
+        return ["func", [x], [], []]
+    if how == "func-out":
+        return ["func", [["usize"]], [x], []]
+    if how == "opaque-arg":
+        return ["opaque", "nowhere", "U", [["type", x]], "C"]
+    if how == "seq-arg":
+        return ["opaque", "nowhere", "U", [["seq", [["nat", 1], ["type", x]]]], "C"]
+    raise AssertionError(how)
+
+
+def respell_case(place, n, wrap, reg_mode, rng, via="loaded"):
+    """two expressions equal under `==` and spelled differently (a unit sum of size n, compact vs general, under the
+    container `wrap`), put at two positions of one expression / one node / two nodes that an implementation sharing
+    results between equal sub-expressions would merge"""
+    ext_a = {"name": "ext.a", "types": [{"name": "T", "descr": "", "params": [], "bound": ["E", "C"]}],
+             "ops": [{"name": "Op", "descr": "a definition", "sig": "plain"}]}
+    ext_ops = {"name": "ext.ops", "types": [], "ops": [{"name": "Id", "descr": "identity", "sig": "poly"}]}
+    t_in = ["opaque", "ext.a", "T", [], "C"]
+    x = respell_wrap(["unit", n], wrap)
+    y = respell_wrap(["sum", [[] for _ in range(n)]], wrap)
+    if rng.random() < 0.5:
+        x, y = y, x
+    reg = {"complete": [ext_a, ext_ops], "ops-only": [ext_ops], "empty": []}[reg_mode]
+    base = {"via": via, "reg": reg, "mode": "respell", "respell": place + ":" + wrap}
+    if place in RESPELL_TY_PLACES:
+        t = {"func-io": ["func", [x], [y], []],
+             "func-io-row": ["func", [t_in, x, ["qubit"]], [t_in, y, ["qubit"]], ["ext.a"]],
+             "func-in-in": ["func", [x, y], [t_in], []],
+             "sum-variants": ["sum", [[x], [y], [t_in]]],
+             "row-elems": ["sum", [[x, y, t_in]]],
+             "tuple-elems": ["tuple", [x, y]],
+             "opaque-args": ["opaque", rng.choice(["nowhere", "ext.a"]), "U", [["type", x], ["type", y], ["type", t_in]], "C"],
+             "seq-elems": ["opaque", "nowhere", "U", [["seq", [["type", x], ["type", y]]]], "C"],
+             "nested-func-io": ["sum", [[["func", [["func", [x], [y], []]], [["func", [x], [y], []]], []]]]]}[place]
+        if place == "seq-elems" and rng.random() < 0.5:
+            return {**base, "kind": "arg", "a": ["seq", [["type", x], ["type", y]]]}
+        return {**base, "kind": "ty", "t": t}
+
+    def ident(sig_in, sig_out, args, descr="identity"):
+        return {"op": "custom", "ext": "ext.ops", "name": "Id", "descr": descr,
+                "sig": {"in": sig_in, "out": sig_out, "reqs": []}, "args": args}
+    if place == "sig-io":
+        nodes = [ident([x, t_in], [y, t_in], [["type", t_in]])]
+    elif place == "sig-args":
+        nodes = [ident([x], [x], [["type", y]])]
+    elif place == "args":
+        nodes = [ident([t_in], [t_in], [["type", x], ["type", y], ["seq", [["type", x], ["type", y]]]])]
+    else:
+        nodes = [ident([x], [x], [["type", x]]), ident([y], [y], [["type", y]])]
+        if rng.random() < 0.5:
+            nodes.append(ident([x], [x], [["type", x]]))
+    if place == "siblings-whole":
+        return {**base, "kind": "whole", "body": {"nodes": nodes}}
+    if place == "nested-vs-outer":
+        return {**base, "kind": "whole",
+                "body": {"nodes": [nodes[0], {"op": "const", "val": ["tuple", [["fn", {"nodes": nodes[1:]}]]]}]}}
+    return {**base, "kind": "hugr", "nodes": nodes}
+
+
 def respell_stream(rng, tier):
-    allstd = sorted(std_exts())
-    for _ in range(60 if tier == "quick" else 700):
+    """every place x every unit size 0..3 (wrap and registry drawn), then sampled combinations; thorough: the full
+    product place x size x wrap, and generated expressions respelled at random positions"""
+    places = RESPELL_TY_PLACES + RESPELL_NODE_PLACES
+    if tier == "quick":
+        for place in places:
+            for n in range(4):
+                yield respell_case(place, n, rng.choice(RESPELL_WRAPS), rng.choice(["complete", "complete", "ops-only"]), rng)
+        for _ in range(30):
+            yield respell_case(rng.choice(places), rng.choice([1, 2, 2, 3]), rng.choice(RESPELL_WRAPS),
+                               rng.choice(["complete", "ops-only", "empty"]), rng, via=rng.choice(["loaded", "loaded", "built"]))
+    else:
+        for place in places:
+            for n in range(4):
+                for wrap in RESPELL_WRAPS:
+                    yield respell_case(place, n, wrap, rng.choice(["complete", "complete", "ops-only", "empty"]), rng,
+                                       via=rng.choice(["loaded", "loaded", "built"]))
+    # generated expressions with unit sums respelled at random positions, as input / output rows
+    for _ in range(25 if tier == "quick" else 500):
         universe = rand_universe(rng)
         g = Gen(rng, universe, [])
         reg = [json.loads(json.dumps(e)) for e in universe] if rng.random() < 0.8 else cut_registry(rng, universe, [])[0]
@@ -1277,14 +1367,11 @@ def respell_stream(rng, tier):
             row, row2 = row2, row
         ft = ["func", row, row2, rng.sample(GEN_EXTS, rng.randint(0, 1))]
         r = rng.random()
-        if r < 0.3:
-            yield {"kind": "ty", "via": "loaded", "reg": reg, "mode": "respell", "t": ft}
-        elif r < 0.45:
-            yield {"kind": "ty", "via": "loaded", "reg": reg, "mode": "respell",
-                   "t": rng.choice([["sum", [[ft, g.ty(0)]]], ["opaque", "nowhere", "U", [["type", ft]], "C"],
-                                    ["func", [ft], [], []]])}
-        elif r < 0.55:
-            yield {"kind": "arg", "via": "loaded", "reg": reg, "mode": "respell", "a": ["seq", [["type", ft], ["nat", 1]]]}
+        if r < 0.4:
+            yield {"kind": "ty", "via": "loaded", "reg": reg, "mode": "respell", "respell": "generated", "t": ft}
+        elif r < 0.5:
+            yield {"kind": "arg", "via": "loaded", "reg": reg, "mode": "respell", "respell": "generated",
+                   "a": ["seq", [["type", ft], ["nat", 1]]]}
         else:
             ops_ = [(e["name"], d["name"]) for e in reg if "std" not in e for d in e["ops"]]
             if not ops_:
@@ -1293,11 +1380,7 @@ def respell_stream(rng, tier):
             e, n = rng.choice(ops_)
             node = {"op": "custom", "ext": e, "name": n, "descr": rng.choice(["", "orig"]),
                     "sig": {"in": row, "out": row2, "reqs": []}, "args": [["type", ft]] if rng.random() < 0.4 else []}
-            if rng.random() < 0.5:
-                yield {"kind": "hugr", "via": "loaded", "reg": reg, "mode": "respell", "nodes": [node]}
-            else:
-                yield {"kind": "whole", "via": "loaded", "reg": reg, "mode": "respell",
-                       "body": {"nodes": [node, {"op": "const", "val": ["fn", {"nodes": [node]}]}]}}
+            yield {"kind": "hugr", "via": "loaded", "reg": reg, "mode": "respell", "respell": "generated", "nodes": [node]}
 
 
 # ------------------------------------------------------------------------------------------------ whole HUGRs
@@ -1411,7 +1494,8 @@ def print_cval(v):
 def out_types(h, n):
     from hugr.hugr.node_port import OutPort
     out = []
-    for k in range(h.num_out_ports(n)):
+    nout = h.num_out_ports(n)
+    for k in range(nout if isinstance(nout, int) and 0 <= nout < 4000 else 0):
         t = guard(lambda k=k: h.port_type(OutPort(n, k)))
         out.append(None if t is None or raised(t) else print_ty(t))
     return out
@@ -1439,6 +1523,9 @@ def dump_whole(h):
     for nd, n in zip(d["nodes"], list(h)):
         assert nd["idx"] == n.idx
         nd["hop"] = print_hop(h, n)
+        for key in ("nin", "nout"):      # a recorded port count that is no count at all: a sentinel no model produces
+            if not (isinstance(nd[key], int) and not isinstance(nd[key], bool) and 0 <= nd[key] < 4000):
+                nd[key] = 4999
         del nd["op"], nd["kind"], nd["name"]
     del d["order_out"], d["order_in"]          # the order links are part of links() with offset -1
     return d
@@ -2192,7 +2279,7 @@ class C11(fw.Prop):
 
     def shrink(self, case):
         # the labels of the path stream describe the generated expression, not its shrunk variants
-        for c in self._shrink({k: v for k, v in case.items() if k not in ("path", "where")}):
+        for c in self._shrink({k: v for k, v in case.items() if k not in ("path", "where", "respell")}):
             yield c
 
     def _shrink(self, case):
@@ -2270,6 +2357,10 @@ class C11(fw.Prop):
         d = {"kind": {}, "registry_mode": {}, "via": {}, "opaque_nesting_depth": {}, "changed": 0, "raised": 0}
         for c, o in zip(cases, observations):
             d["kind"][c["kind"]] = d["kind"].get(c["kind"], 0) + 1
+            if "respell" in c:
+                rp = d.setdefault("respelled_pair_placed_at", {})
+                key = c["respell"].split(":")[0]
+                rp[key] = rp.get(key, 0) + 1
             m = c.get("mode", "corpus")
             d["registry_mode"][m] = d["registry_mode"].get(m, 0) + 1
             d["via"][c["via"]] = d["via"].get(c["via"], 0) + 1
